@@ -10,6 +10,7 @@ trace against spec/PersistTrace.tla and evaluates LoadSaveIdentity / FileHoldsCo
 MeshRestoredEqualsRecomputed.  Python compares nothing."""
 from __future__ import annotations
 
+import contextlib
 import copy as _copy
 import hashlib
 import json
@@ -21,9 +22,9 @@ import numpy as np
 
 from . import core
 
-MECH = dict(MSkip="none", MLoadMissing="none", MLayerCond=True, MRestoreDual=True, MPolyAsHeld=True, MDynAlways=True, MMemoByPath=False)
+MECH = dict(MSkip="none", MLoadMissing="none", MLayerCond=True, MRestoreDual=True, MPolyAsHeld=True, MDynAlways=True, MTransformRebuilds=True, MMemoByPath=False)
 PINNED = dict(MECH, MLoadMissing="default")
-INVARIANTS = ["TypeOK", "LoadSaveIdentity", "FileHoldsContent", "MeshRestoredEqualsRecomputed"]
+INVARIANTS = ["TypeOK", "LoadSaveIdentity", "FileHoldsContent", "SavedMeshIsMeshOfItsTriangulation", "MeshRestoredEqualsRecomputed"]
 
 OPT_NAMES = ["solve_time", "skip_time", "dt_init", "dt_max", "adaptive", "adaptive_window", "max_solve_retries",
              "adaptive_time_step_multiplier", "output_file", "terminal_psi", "gpu", "sparse_solver",
@@ -151,6 +152,35 @@ def mesh_rec_raw(I, grp):
     return r
 
 
+def recomputed_rec(I, tdgl, mesh):
+    """Identities of the mesh recomputed from the triangulation (sites, elements) of `mesh` with the real
+    Mesh.from_triangulation (NoMesh if there is none)."""
+    if mesh is None:
+        return {a: 0 for a in MESH_ARRAYS}
+    return mesh_rec(I, tdgl.finite_volume.Mesh.from_triangulation(np.array(mesh.sites), np.array(mesh.elements)))
+
+
+SHIFT = (0.75, -0.5)
+
+
+def transformed(dev, pre):
+    """The pre-save history of a meshed device (except "context", which is entered around the save)."""
+    if pre == "translate":
+        dev.translate(SHIFT[0], SHIFT[1], inplace=True)
+        return dev
+    if pre in ("rotate", "scale"):
+        import logging
+
+        logging.disable(logging.WARNING)
+        try:
+            new = dev.rotate(30.0) if pre == "rotate" else dev.scale(xfact=1.25, yfact=0.8)
+        finally:
+            logging.disable(logging.NOTSET)
+        new.make_mesh(max_edge_length=1.4 * (1.25 if pre == "scale" else 1.0))
+        return new
+    return dev
+
+
 def device_rec(I, dev):
     lay = dev.layer
     return {
@@ -197,14 +227,14 @@ def guarded(fn):
 _BASE = {}
 
 
-def base_solution(tdgl, tmp, nsteps=5, k=2, kind="barhole", probes=2, screening=False, nofile=False, smooth=0):
+def base_solution(tdgl, tmp, nsteps=5, k=2, kind="barhole", probes=2, screening=False, nofile=False, smooth=0, pre="none"):
     """A tiny real run (fixed step): nsteps steps, a frame every k steps; cached per process.
     nofile: run with output_file=None (the Solution returned by solve() is then not backed by a file)."""
-    key = (nsteps, k, kind, probes, screening, nofile, smooth, tmp)
+    key = (nsteps, k, kind, probes, screening, nofile, smooth, pre, tmp)
     if key in _BASE and (nofile or os.path.exists(_BASE[key].path)):
         return _BASE[key]
     d = tempfile.mkdtemp(prefix="pbase", dir=tmp)
-    sol = tiny_run(tdgl, None if nofile else os.path.join(d, "base.h5"), nsteps, k, kind, probes, screening, smooth)
+    sol = tiny_run(tdgl, None if nofile else os.path.join(d, "base.h5"), nsteps, k, kind, probes, screening, smooth, pre)
     _BASE[key] = sol
     return sol
 
@@ -341,15 +371,21 @@ def device_case(tdgl, args, tmp):
     path = os.path.join(d, "dev.h5")
     for gen in ((1, 2) if args.get("history") else (1,)):
         # generation 2: same outline, other layer / probe positions / smoothing (same array shapes, other content)
-        dev = build_device(tdgl, shape, variant, gen)
-        ev.append({"ev": "made", "saved": device_rec(I, dev)})
-        if via == "path":
-            ok, _, err = guarded(lambda: dev.to_hdf5(path, save_mesh=shape["savemesh"]))
-        else:
-            def save():
-                with h5py.File(path, "x") as f:
-                    dev.to_hdf5(f.create_group("g"), save_mesh=shape["savemesh"])
-            ok, _, err = guarded(save)
+        dev = transformed(build_device(tdgl, shape, variant, gen), shape.get("pre", "none"))
+        ctxmgr = dev.translation(*SHIFT) if shape.get("pre") == "context" else contextlib.nullcontext()
+        ctxmgr.__enter__()      # "context": made / save happen inside `with device.translation(...)`
+        try:
+            ev.append({"ev": "made", "saved": device_rec(I, dev), "recomp": recomputed_rec(I, tdgl, dev.mesh)})
+            if via == "path":
+                ok, _, err = guarded(lambda: dev.to_hdf5(path, save_mesh=shape["savemesh"]))
+            else:
+                def save():
+                    with h5py.File(path, "x") as f:
+                        dev.to_hdf5(f.create_group("g"), save_mesh=shape["savemesh"])
+                ok, _, err = guarded(save)
+            saved_state = dev.copy(with_mesh=False)       # what == is asked about: the device as it was saved
+        finally:
+            ctxmgr.__exit__(None, None, None)
         if not ok:
             ev.append({"ev": "save", "ok": False, "err": err, "rec": {}, "present": []})
             return tr
@@ -366,7 +402,7 @@ def device_case(tdgl, args, tmp):
         if not ok:
             ev.append({"ev": "load", "ok": False, "err": err, "rec": {}, "eq": "exc"})
             return tr
-        ok2, r, _ = guarded(lambda: dev2 == dev)
+        ok2, r, _ = guarded(lambda: dev2 == saved_state)
         ev.append({"ev": "load", "ok": True, "rec": device_rec(I, dev2), "eq": b2s(r) if ok2 else "exc"})
         if gen == 1 and args.get("history"):
             os.remove(path)
@@ -392,15 +428,21 @@ def mesh_case(tdgl, args, tmp):
     I = Interner()
     ev = []
     tr = {"kind": "mesh", "shape": shape, "ev": ev,
-          "label": f"mesh compress={shape['compress']} {args.get('dev', 'barhole')} mel={args.get('mel', 1.3)} smooth={args.get('smooth', 0)}"
+          "label": f"mesh compress={shape['compress']} pre={shape.get('pre', 'none')} {args.get('dev', 'barhole')} mel={args.get('mel', 1.3)} smooth={args.get('smooth', 0)}"
                    f"{' history' if args.get('history') else ''}"}
     d = tempfile.mkdtemp(prefix="pmesh", dir=tmp)
     path = os.path.join(d, "mesh.h5")
     for gen in ((1, 2) if args.get("history") else (1,)):
         # generation 2: the same triangulation smoothed further (same array shapes, other coordinates)
         dev = devices.make(tdgl, args.get("dev", "barhole"), mel=args.get("mel", 1.3), smooth=args.get("smooth", 0) + 35 * (gen - 1), probes=2)
-        mesh = dev.mesh
-        ev.append({"ev": "made", "saved": mesh_rec(I, mesh)})
+        pre = shape.get("pre", "none")
+        if pre != "none":
+            dev = dev.copy(with_mesh=True)      # (the cached device is shared)
+            dev = transformed(dev, pre)
+        ctxmgr = dev.translation(*SHIFT) if pre == "context" else contextlib.nullcontext()
+        with ctxmgr:
+            mesh = dev.mesh                      # "context": the mesh the device holds inside the temporary translation
+        ev.append({"ev": "made", "saved": mesh_rec(I, mesh), "recomp": recomputed_rec(I, tdgl, mesh)})
 
         def save():
             with h5py.File(path, "x") as f:
@@ -482,15 +524,18 @@ def derived(I, sol, queries):
 RUNS = {1: (0, 100), 2: (3, 100), 3: (4, 2), 4: (5, 2)}      # nframes -> (steps, save_every)
 
 
-def tiny_run(tdgl, out, nsteps, k, kind, probes, screening, smooth=0):
+def tiny_run(tdgl, out, nsteps, k, kind, probes, screening, smooth=0, pre="none"):
     from . import devices
 
     dev = devices.make(tdgl, kind, mel=1.3, probes=probes, smooth=smooth)
+    if pre != "none":
+        dev = transformed(dev.copy(with_mesh=True), pre)       # (the cached device is shared)
     dt = 2.0 ** -6
     opts = tdgl.SolverOptions(solve_time=max(nsteps * dt - dt / 2, 0.0), dt_init=dt, dt_max=dt, adaptive=False, save_every=k,
                               output_file=out, progress_interval=10 ** 9, include_screening=screening, screening_tolerance=1e-2)
     cur = {"source": 1.0, "drain": -1.0} if kind in ("bar", "barhole") else None
-    return tdgl.solve(dev, opts, applied_vector_potential=0.2, terminal_currents=cur)
+    with (dev.translation(*SHIFT) if pre == "context" else contextlib.nullcontext()):
+        return tdgl.solve(dev, opts, applied_vector_potential=0.2, terminal_currents=cur)
 
 
 @raising_is_an_observation("solution")
@@ -503,18 +548,19 @@ def solution_case(tdgl, args, tmp):
     dev = args.get("dev", "barhole")
     mode = shape["mode"]
     history = bool(args.get("history"))
+    pre = args.get("pre", "none")        # what happened to the meshed device before the run (environment choice)
     I = Interner()
     d = tempfile.mkdtemp(prefix="psol", dir=tmp)
     ev = []
     tr = {"kind": "solution", "shape": shape, "ev": ev,
-          "label": f"solution {json.dumps(shape, sort_keys=True)} dev={dev}{' history' if history else ''}"}
+          "label": f"solution {json.dumps(shape, sort_keys=True)} dev={dev} pre={pre}{' history' if history else ''}"}
     target = os.path.join(d, "solution.h5")          # the ONE path the history uses
     for gen in ((1, 2) if history else (1,)):
         smooth = 35 * (gen - 1)       # generation 2: same triangulation smoothed further, hence another run
         work = os.path.join(d, f"work{gen}.h5")
         if mode == "solved":
             # the file tdgl.solve writes under output_file is the saved object
-            orig = tiny_run(tdgl, target, nsteps, k, dev, probes, shape["screening"], smooth)
+            orig = tiny_run(tdgl, target, nsteps, k, dev, probes, shape["screening"], smooth, pre)
             if os.path.abspath(orig.path) != os.path.abspath(target):
                 raise core.MachineryFailure(f"solve wrote to {orig.path}, not to the path of the history")
             with h5py.File(target, "r") as f:
@@ -523,14 +569,14 @@ def solution_case(tdgl, args, tmp):
         elif mode == "nofile":
             # the Solution solve() returns for output_file=None: it holds the last step and the dynamics, its file is gone
             orig = base_solution(tdgl, tmp, nsteps=nsteps, k=k, kind=dev, probes=probes, screening=shape["screening"], nofile=True,
-                                 smooth=smooth)
+                                 smooth=smooth, pre=pre)
             if orig.saved_on_disk:
                 raise core.MachineryFailure("solution of a run with output_file=None is backed by a file")
             n = int(orig.data_range[1] - orig.data_range[0] + 1)
             steps = list(range(int(orig.data_range[0]), int(orig.data_range[1]) + 1))
             frames = [0] * (n - 1) + [frame_id_obj(I, orig.tdgl_data)]        # only the step it holds can be known
         else:
-            base = base_solution(tdgl, tmp, nsteps=nsteps, k=k, kind=dev, probes=probes, screening=shape["screening"], smooth=smooth)
+            base = base_solution(tdgl, tmp, nsteps=nsteps, k=k, kind=dev, probes=probes, screening=shape["screening"], smooth=smooth, pre=pre)
             shutil.copy(base.path, work)
             with h5py.File(work, "r") as f:
                 steps = sorted(int(s) for s in f["data"])
@@ -544,7 +590,8 @@ def solution_case(tdgl, args, tmp):
         queries = [0.0, 0.26 * total, 0.5 * total, 0.74 * total, total, 2 * total]
         otimes, oclosest, ocur = derived(I, orig, queries)
         ev.append({"ev": "made", "saved": {"frames": frames, "dyn": dyn_rec(I, orig.dynamics), "times": otimes, "closest": oclosest,
-                                           "mesh": mesh_id(I, mesh_rec(I, orig.device.mesh)), "currents": ocur}})
+                                           "mesh": mesh_id(I, mesh_rec(I, orig.device.mesh)), "currents": ocur},
+                   "recomp": mesh_id(I, recomputed_rec(I, tdgl, orig.device.mesh))})
         if mode == "solved":
             path, ok, err = target, True, ""
         elif mode == "copy":
